@@ -10,6 +10,8 @@ interrogate_module -oc) x back-end (-c, -python, -python-native):
                     write(2)/writev(2) calls on the output; then the k-th one fails (ENOSPC / EIO), or is
                     short and followed by a failure, for every selected k in 1..n;
   close             the close of the output reports an error (deferred write-back error).
+  strace (thorough) the same write failure injected by `strace -e inject` on the output path: a syscall-level
+                    injector that shares nothing with the preload library (cross-check of the machinery).
 
 Oracle: the fault really happened (INJECTED*/FAILED line in the injector's side log, or a path that cannot
 be opened by construction) => exit status != 0.  Runs in which no fault fired are inconclusive.
@@ -32,7 +34,7 @@ STATIC = ["open-missing-dir", "open-through-file", "open-is-directory", "open-EA
 # fault kind of the case -> class used in the violation key (errno values are payload, folded away)
 FAULT_CLASS = {"open-missing-dir": "open-fail", "open-through-file": "open-fail", "open-is-directory": "open-fail",
                "open-EACCES": "open-fail", "open-EROFS": "open-fail", "devfull": "devfull",
-               "write": "write-fail", "short": "short-write", "close": "close-fail"}
+               "write": "write-fail", "short": "short-write", "close": "close-fail", "strace-write": "write-fail"}
 FLAVOR = "ubsan"        # ASan replaces malloc and dislikes foreign preloads; UBSan does not
 
 
@@ -126,9 +128,10 @@ class Runner:
         self.lib_in = paths["od"]
         return None
 
-    def run(self, target=None, env=None):
+    def run(self, target=None, env=None, strace=None):
         """One execution.  target: path given for the channel under test (None = the normal one).
-        Returns (Result, events, target-path)."""
+        strace: None, or a function path -> list of strace arguments (independent, syscall-level injector; the
+        LD_PRELOAD library is then not loaded).  Returns (Result, events, target-path)."""
         shutil.rmtree(self.outdir, ignore_errors=True)
         os.makedirs(self.outdir)
         paths = self.default_paths()
@@ -146,6 +149,15 @@ class Runner:
         else:
             cmd = [self.b.interrogate_module, "-oc", paths["moc"], "-module", "mod", "-library", "lib",
                    self.backend, self.lib_in]
+        if strace is not None:
+            slog = os.path.join(self.d, "strace%d" % self.nrun)
+            r = core.run(["strace", "-f", "-o", slog] + strace(paths[key]) + cmd, timeout=120, cwd=self.outdir)
+            ev = [["STRACE", line] for line in open(slog, errors="replace")] if os.path.exists(slog) else []
+            try:
+                os.unlink(slog)
+            except OSError:
+                pass
+            return r, ev, paths[key]
         r = core.run(cmd, timeout=60, cwd=self.outdir, env=e, preload=self.pre)
         ev = parse_log(log)
         try:
@@ -261,6 +273,15 @@ def run_case(ctx, case):
         if fault == "close":
             r, ev, t = rn.run(env={"VF_FAULT_PATH": True, "VF_FAULT_CLOSE": "1", "VF_FAULT_ERRNO": errno})
             judge("close", r, any(e[0] == "INJECTED-CLOSE" for e in ev), "close")
+        elif fault == "strace-write":
+            # cross-check with an injector that shares nothing with vf_fault.c: strace fails every write(2)/writev(2)
+            # on the output path from the first one on, in the kernel's syscall path
+            r, ev, t = rn.run(strace=lambda path: ["-e", "trace=write,writev", "-e",
+                                                   "inject=write,writev:error=%s:when=1+" % errno, "-P", path])
+            if not ev or "strace:" in r.err and "ptrace" in r.err.lower():
+                res.inconclusive = "strace unavailable"
+                return res
+            judge("strace", r, any("(INJECTED)" in e[1] for e in ev), "strace")
         else:
             ks = select_ks(n_writes, case.get("ksel", {}))
             for k in ks:
@@ -331,6 +352,8 @@ def main(chk):
                     variants += [("write", "EIO"), ("close", "ENOSPC")]
                 if not chk.quick():
                     variants += [("short", "EIO"), ("write", "EDQUOT")]
+                    if j == 1:
+                        variants += [("strace-write", "ENOSPC")]
                 for fault, errno in variants:
                     i += 1
                     cases.append(make_case(i, h, tool, channel, backend, fault, errno=errno, ksel={"max": kmax}))
